@@ -164,6 +164,8 @@ def make_table_json_precursor(cells: CellGrid, origin, fixer:ParseFixer) -> Tupl
         units = [line[1] for line in cells[2 : 2 + n_col]]
     else:
         units = cells[3][:n_col]
+    if len(units) < n_col:
+        raise ValueError(f"Invalid table {table_name}: {n_col} column names but only {len(units)} units")
     for unit in units:
         if not isinstance(unit, str):
             raise ValueError(f"Invalid table {table_name}: unit {unit!r} is not text")
